@@ -41,7 +41,7 @@ def generate(seed, batch):
     scen['v0'] = {'cls': rng.choice(['gauss', 'gauss', 'const', 'alt', 'ramp', 'spike']), 'seed': rng.getrandbits(40)}
     scen['faults'] = []
     scen['sort'] = rng.random() < 0.85
-    scen['mass_scale'] = rng.choice([None, None, 10 ** rng.uniform(-2, 2)])
+    scen['mass_scale'] = rng.choice([None, None, 10 ** rng.uniform(-2, 2), 10 ** rng.uniform(-14, 4)])
     scen['cross_path'] = rng.random() < 0.4
     if batch in ('F0', 'FI'):
         n = rng.choice([6, 8, 12, 20, 30, 45, 60, 90, 120, rng.randint(6, 200), rng.randint(6, 400)])
@@ -53,7 +53,8 @@ def generate(seed, batch):
             'n': n, 'nnull': rng.choice([0, 0, 1, 2, 3, rng.randint(0, max(0, n // 3))]),
             'density': rng.choice([1.0, 0.5, 0.2, 0.1]), 'cond_exp': rng.choice([0.3, 1.0, 2.0, 4.0]),
             'clustered': rng.random() < 0.3, 'mass': rng.choice(['spd', 'spd', 'diag', 'identity']),
-            'mseed': rng.getrandbits(40), 'w_min': 10 ** rng.uniform(-2, 4),
+            'mseed': rng.getrandbits(40), 'w_min': 10 ** rng.uniform(-2, 3),
+            'mass_mag': rng.choice([1.0, 1.0, 10 ** rng.uniform(-15, 3)]),
         }
         scen['k'] = rng.choice([1, 2, 3, 5, 10, 25, rng.randint(1, 25)])
         if batch == 'FI':
@@ -78,8 +79,8 @@ def generate(seed, batch):
             'a': rng.uniform(0.3, 3.0), 'b': rng.uniform(0.3, 3.0), 'r': rng.uniform(1.0, 20.0),
             'alphadeg': rng.uniform(0.0, 30.0),
             'stack': rng.choice([[0, 90, 90, 0], [0, 90, -45, 45], [45, -45, 0, 90, 30], [0], [30, -30, 60]]),
-            'plyt': 1.25e-4, 'm': rng.randint(2, 6), 'n': rng.randint(2, 6), 'flags': flags,
-            'mu': 10 ** rng.uniform(2, 4), 'offset': rng.choice([0.0, 0.0, 1e-4, -2e-4]),
+            'plyt': 1.25e-4, 'm': rng.choice([2, 3, 4, 5, 6, 11, 12]), 'n': rng.choice([2, 3, 4, 5, 6, 11]), 'flags': flags,
+            'mu': 10 ** rng.uniform(0, 4), 'offset': rng.choice([0.0, 0.0, 1e-4, -2e-4]),
             'atype': rng.choice([4, 4, 3]), 'Nxx': rng.choice([0.0, -1.0, -20.0, 5.0]),
         }
         if rng.random() < 0.15:
@@ -125,7 +126,7 @@ def shrink_candidates(scen):
                     c = copy.deepcopy(scen)
                     c['mat']['nnull'] = nn
                     yield c
-        for key, val in (('clustered', False), ('density', 1.0), ('cond_exp', 0.3), ('mass', 'identity')):
+        for key, val in (('clustered', False), ('density', 1.0), ('cond_exp', 0.3), ('mass', 'identity'), ('mass_mag', 1.0)):
             if m.get(key) != val:
                 c = copy.deepcopy(scen)
                 c['mat'][key] = val
@@ -219,8 +220,10 @@ def check_result(scen, Kd, Md, active, vals, vecs, k, sparse, sort, ref, log, re
         # omega^2 is an eigenvalue of the definite pencil (K, M): perturbation bound under 1e-12 relative backward error
         # plus the resolution of the shift-invert transform around sigma=-1, w'=1/(omega^2+1)
         w2, w2min = abs(w) ** 2, float(ref['w'][0]) ** 2
+        # and ARPACK's stopping rule |bound| <= eps*max(eps^(2/3), |theta|): for omega^2 >> 1e10 the transformed
+        # values theta = 1/(omega^2+1) are below eps^(2/3) and are only converged to ~eps^(5/3)*(omega^2+1) relative
         return 0.5e-12 * (nK / max(w2, 1e-300) + nM) / ref['mmin'] + \
-            2e-16 * ref['condKM'] * (w2 + 1) ** 2 / (max(w2, 1e-300) * (w2min + 1))
+            2e-15 * ref["condKM"] * (w2 + 1) ** 2 / (max(w2, 1e-300) * (w2min + 1)) + 1e-25 * (w2 + 1)
 
     def rtol(w):
         return min(1e-4, max(1e-7, pbound(w)))
@@ -245,7 +248,8 @@ def check_result(scen, Kd, Md, active, vals, vecs, k, sparse, sort, ref, log, re
         if not (nv > 0) or not np.all(np.isfinite(v)):
             raise Violation('F1-eigenpair' + tag, {'why': 'zero or non-finite mode', 'index': i})
         r = np.linalg.norm(Kd.dot(v) - (w.real ** 2) * Md.dot(v))
-        bound = 1e-8 * (nK + w.real ** 2 * nM) * nv
+        # solver precision: 1e-8 relative backward error, relaxed by ARPACK's stopping rule for tiny transformed values
+        bound = max(1e-8, 4e-26 * (w.real ** 2 + 1) if sparse else 0.0) * (nK + w.real ** 2 * nM) * nv
         if not (r <= bound):
             raise Violation('F1-eigenpair' + tag, {'why': 'K v - omega^2 M v is not zero to solver precision', 'index': i,
                                                    'omega': w.real, 'residual': float(r), 'bound': float(bound)})
